@@ -21,7 +21,7 @@ def run(ctx):
         "sufficiency of the floating-point error constants is only searched, not proved",
     ]
     all26 = set(range(1, 27))
-    ctx.trace_direction("sign", "Trace_SignPipeline", SIGN_TRACE_INV, 4000 if ctx.quick() else 60000, "signtrace")
+    ctx.trace_direction("sign", "Trace_SignPipeline", SIGN_TRACE_INV, 12000 if ctx.quick() else 120000, "signtrace")
     # 1. N=1: all 17,576 ordered triples, model theorems + replay
     r = ctx.tlc("Gen_Sign", vlib.cfg(constants={"N": 1, "SubIdx": all26, "EmitAll": True},
                                      invariants=["TableEqualsSoS", "Rotation", "AntiSym", "ZeroIffEqual", "DetSign", "SemanticEqualsOracle", "Emit"]),
